@@ -67,7 +67,8 @@ def selfvalidate(rep, pid):
                        ("reordered_definitions", "consecutive function definitions of every class and module written in reverse order"),
                        ("unpacked_calls", "tuple results unpacked through a temporary (u = f(); a = u[0]; b = u[1])"),
                        ("guard_clauses", "loop / function bodies ending in `if c: BODY` written with a guard clause (if not c: continue / return; BODY)"),
-                       ("explicit_defaults", "calls of package functions pass the constant defaults they relied on explicitly")):
+                       ("explicit_defaults", "calls of package functions pass the constant defaults they relied on explicitly"),
+                       ("not_compare", "a != b written not a == b (likewise not in / is not)")):
         vs.append(dict(pid=pid, name=f"twin: {what}", expect="silent", edits=[], tier="quick", mentions=None, transform=kind))
     with cf.ThreadPoolExecutor(min(16, os.cpu_count() or 4)) as ex:
         res = list(ex.map(selftest.run_variant, vs))
